@@ -401,6 +401,32 @@ func (c *pvComp) Run(args []string) string {
 				return "nondet:[" + encPath(first) + "!=" + encPath(r) + "]"
 			}
 		}
+		// The index is the caller's to keep and to extend (subscribe.isTargetDelete and cache.joinPrefixAndPath
+		// append the path's index to the prefix's): writing through it and appending to it must not change
+		// the message, nor what the same message indexes to afterwards (seeded change c19_seed8 returned the
+		// message's own Element slice; the spare capacity is part of the test: paths cut from one array)
+		if p != nil {
+			want := append([]string{}, first...)
+			before := proto.Clone(p).(*gpb.Path)
+			if el := p.GetElement(); len(el) > 0 {
+				// give the message's element slice spare capacity, as a path sliced off a longer array has
+				ext := make([]string, len(el), len(el)+4)
+				copy(ext, el)
+				p.Element = ext
+			}
+			r1 := path.ToStrings(p, pfx)
+			for i := range r1 {
+				r1[i] = "<overwritten>"
+			}
+			r1 = append(r1, "x", "y")
+			_ = r1
+			if !proto.Equal(before, p) {
+				return "aliased:message-changed-through-its-index"
+			}
+			if r2 := path.ToStrings(p, pfx); !reflect.DeepEqual(append([]string{}, r2...), want) {
+				return "aliased:[" + encPath(want) + "!=" + encPath(r2) + "]"
+			}
+		}
 		return "[" + encPath(first) + "]"
 	case "complete":
 		if len(args) != 3 {
